@@ -39,6 +39,15 @@ Theorem C16_check_contract_iff : forall ps,
   zlen ps <= 100 /\ Forall (fun p => zlen (p_nodes p) <= 1000 /\ zlen (p_edges p) <= 1000) ps.
 Proof. exact check_contract_iff. Qed.
 
+(* Validity is monotone and order independent: every part of a valid contract is valid, and whether a
+   contract is accepted does not depend on the order of its predicates. *)
+Theorem C16_check_contract_parts_valid : forall a b,
+  check_contract (a ++ b) = Ok tt -> check_contract a = Ok tt /\ check_contract b = Ok tt.
+Proof. exact check_contract_app_valid. Qed.
+Theorem C16_check_contract_order_independent : forall a b,
+  Permutation.Permutation a b -> (check_contract a = Ok tt <-> check_contract b = Ok tt).
+Proof. exact check_contract_perm. Qed.
+
 (* Contract validation never panics; when it names a predicate, it is the first invalid one with its own error. *)
 Theorem C16_check_contract_total : forall ps, check_contract ps = Ok tt \/ exists e, check_contract ps = Err e.
 Proof. exact check_contract_total. Qed.
